@@ -12,6 +12,11 @@ def const_div(a, b):
     if isinstance(a, int) and isinstance(b, int):
         quotient = abs(a) // abs(b)
         return quotient if (a < 0) == (b < 0) else -quotient
+    if b == 0:
+        # Floating point division by zero is defined:
+        if a == 0 or math.isnan(a):
+            return math.nan
+        return math.copysign(math.inf, a) * math.copysign(1.0, b)
     return a / b
 
 
@@ -19,7 +24,11 @@ def const_rem(a, b):
     """Remainder of two constants, it has the sign of the dividend."""
     if isinstance(a, int) and isinstance(b, int):
         return a - b * const_div(a, b)
-    return math.fmod(a, b)
+    try:
+        return math.fmod(a, b)
+    except ValueError:
+        # Remainder of infinity, or of division by zero
+        return math.nan
 
 
 def const_shl(a, b):
@@ -167,6 +176,10 @@ class Context:
                 )
             try:
                 value = ops[expr.op](a, b)
+            except ZeroDivisionError:
+                raise SemanticError(
+                    "Division by zero in constant expression", expr.loc
+                )
             except (TypeError, ValueError):
                 raise SemanticError(
                     f"Cannot evaluate '{expr.op}' on {a} and {b}", expr.loc
